@@ -446,6 +446,38 @@ func RunCell(c *Cell) (res *Result) {
 				time.Sleep(100 * time.Millisecond)
 			}
 			record(op, t0, nil, strconv.FormatBool(gone))
+		case "intrude": // arg = credential class; tries the main address and every other socket of the pair
+			var targets []string
+			if rc := clients[0].ReattachConfig(); rc != nil {
+				targets = append(targets, rc.Addr.String())
+			}
+			for _, d := range []string{pluginDir, hostTmp} {
+				filepath.Walk(d, func(pth string, info os.FileInfo, err error) error {
+					if err == nil && info.Mode()&os.ModeSocket != 0 {
+						dup := false
+						for _, t := range targets {
+							if t == pth {
+								dup = true
+							}
+						}
+						if !dup {
+							targets = append(targets, pth)
+						}
+					}
+					return nil
+				})
+			}
+			answered := 0
+			var where []string
+			for _, tg := range targets {
+				for _, kind := range []string{"grpc", "netrpc"} {
+					if intrude(tg, kind, arg) {
+						answered++
+						where = append(where, kind+"@"+filepath.Base(tg))
+					}
+				}
+			}
+			record(op, t0, nil, fmt.Sprintf("answered=%d targets=%d %s", answered, len(targets), strings.Join(where, ",")))
 		case "sleep":
 			ms, _ := strconv.Atoi(arg)
 			time.Sleep(time.Duration(ms) * time.Millisecond)
